@@ -129,6 +129,7 @@ func raceSignatures(text string) []Violation {
 			sections = append(sections, curSec)
 		}
 		var frames []string
+		copyRace := false
 		for _, sec := range sections {
 			if strings.HasPrefix(sec[0], "Goroutine") {
 				continue
@@ -138,8 +139,12 @@ func raceSignatures(text string) []Violation {
 				kind = "write"
 			}
 			fr := "outside-library"
+			viaCopy := false
 			for _, l := range sec[1:] {
 				tl := strings.TrimSpace(l)
+				if strings.HasPrefix(tl, "github.com/mitchellh/copystructure.Copy(") {
+					viaCopy = true
+				}
 				if strings.HasPrefix(tl, "github.com/hashicorp/eventlogger") && !strings.Contains(tl, "/simrt.") {
 					if i := strings.LastIndex(tl, "("); i > 0 {
 						tl = tl[:i]
@@ -148,10 +153,19 @@ func raceSignatures(text string) []Violation {
 					break
 				}
 			}
+			if viaCopy && strings.HasSuffix(fr, "/filters/encrypt.(*Filter).Process") {
+				// the unlocked deep copy of the shared *Event: identified by its call
+				// site; the other side is whoever writes the event at that moment
+				copyRace = true
+				fr += "[copystructure.Copy]"
+			}
 			frames = append(frames, kind+" "+fr)
 		}
 		sort.Strings(frames)
 		class := strings.Join(frames, " | ")
+		if copyRace {
+			class = "read /filters/encrypt.(*Filter).Process[copystructure.Copy] | write <any writer of the shared Event>"
+		}
 		inLib := false
 		for _, f := range frames {
 			if !strings.HasSuffix(f, "outside-library") {
